@@ -246,7 +246,8 @@ def report(ctx, pid, o, case, bis, tdiff, pfail, to_q, depth, cap, extra_tags=()
             orc = {"kind": why, "orig_metric": str(mp), "reread_metric": str(mq)}
         payload["simulator_oracle"] = orc
         ctx.fail("oracle" if confirmed else "corr",
-                 "%s reader: re-read problem differs from the original (%s)%s" % (o["reader"], why, "" if confirmed else " [not reproduced by the simulator oracle]"),
+                 ("the two readers' problems differ (%s; first = UP reader, second = AI reader)%s" if pid == "c21" else
+                  "%s reader: re-read problem differs from the original (%%s)%%s" % o["reader"]) % (why, "" if confirmed else " [not reproduced by the simulator oracle]"),
                  tags + [why], payload, confirmed)
     if tdiff:
         payload["temporal_structures"] = {"original": o["info"]["tP"], "reread": o["info"]["tQ"]}
